@@ -127,6 +127,10 @@ class ExprMixin:
             return x == y
         if isinstance(a, VBytes) and isinstance(b, VBytes):
             return self.bytes_eq(a, b)
+        if isinstance(a, VBKey) or isinstance(b, VBKey):
+            x = a if isinstance(a, VBKey) else coerce(a, BKEY)
+            y = b if isinstance(b, VBKey) else coerce(b, BKEY)
+            return x.t == y.t
         if isinstance(a, VStr) and isinstance(b, VStr):
             if a.lit is not None and b.lit is not None:
                 return z3.BoolVal(a.lit == b.lit)
